@@ -633,3 +633,30 @@ pub fn wide_group_family(seed: u64, count: usize, fancy: bool) -> Vec<(Node, Vec
     }
     out
 }
+
+/// Adjacent literals / quantified literals that differ only in case or in their case mode, in
+/// front of a VM-compiled tail (whether a repeat may give characters back to its neighbour
+/// depends on both the letters and the flags in force).
+pub fn fold_adjacent_family() -> Vec<Node> {
+    let ci = |s: &str| Flags("i".into(), "".into(), Some(b(Node::lit(s))));
+    let cs = |s: &str| Flags("".into(), "i".into(), Some(b(Node::lit(s))));
+    let lits: Vec<Node> = vec![Node::lit("k"), Node::lit("K"), ci("k"), ci("K"), cs("k"), Node::lit("s"), ci("s"), Node::lit("\u{17f}")];
+    let quants = [(1u32, None, Mode::Greedy), (0, None, Mode::Greedy), (0, Some(1), Mode::Greedy), (1, Some(2), Mode::Greedy), (1, None, Mode::Lazy)];
+    let tails: Vec<Node> = vec![Assert(A::WordB), Look(b(Node::lit("-")), false, false), Look(b(Empty), false, false), Concat(vec![Node::group(Any(false)), Repeat(b(Backref(1)), 0, Some(1), Mode::Greedy)])];
+    let mut out = vec![];
+    for x in &lits {
+        for y in &lits {
+            for (lo, hi, m) in quants {
+                for (ti, t) in tails.iter().enumerate() {
+                    // tail behind, and (for the assertion) also in front
+                    out.push(Concat(vec![Repeat(b(x.clone()), lo, hi, m), y.clone(), t.clone()]));
+                    if ti == 0 {
+                        out.push(Concat(vec![t.clone(), Repeat(b(x.clone()), lo, hi, m), y.clone()]));
+                        out.push(Concat(vec![x.clone(), Repeat(b(y.clone()), lo, hi, m), x.clone(), t.clone()]));
+                    }
+                }
+            }
+        }
+    }
+    out
+}
